@@ -375,7 +375,11 @@ Fixpoint check_clauses (is_case : bool) (sfx : string) (expected : fty) (xtors :
       end
   end.
 
-Fixpoint check_term (t : fterm) : checker :=
+(* [eager] = false: the code as it is.  [eager] = true: the one-line repair of the instance-order
+   defect - Constructor::check and New::check first call expected.check(symbol_table), so the
+   instance of the expected type exists before its xtors are looked up. *)
+Fixpoint check_term_gen (eager : bool) (t : fterm) : checker :=
+  let check_term := check_term_gen eager in
   fun st ctx expected =>
   match t with
   | FVar v ty chi =>                                            (* var.rs *)
@@ -422,6 +426,7 @@ Fixpoint check_term (t : fterm) : checker :=
           COk (FCall f args' (Some expected), st2)
       end
   | FCtor x args _ =>                                           (* constructor.rs *)
+      doc st <- (if eager then ty_check expected st else COk st);
       match expected with
       | FI64 => CErr EExpectedI64ForConstructor
       | FDecl _ targs =>
@@ -463,6 +468,7 @@ Fixpoint check_term (t : fterm) : checker :=
           end
       end
   | FNew cls _ =>                                               (* new.rs *)
+      doc st <- (if eager then ty_check expected st else COk st);
       match expected with
       | FI64 => CErr EExpectedI64ForNew
       | FDecl name targs =>
@@ -569,12 +575,15 @@ Fixpoint codata_check (st : symtab) (params : fnamectx) (ds : list fdtorsig) : c
       doc _ <- ty_check_template st params (fdtcont d);
       codata_check st params r
   end.
-Definition def_check (d : fdef) (st : symtab) : cres (fdef * symtab) :=
+Definition check_term : fterm -> checker := check_term_gen false.
+
+Definition def_check_gen (eager : bool) (d : fdef) (st : symtab) : cres (fdef * symtab) :=
   doc _ <- ctx_no_dups (fdctx d);
   doc st1 <- ctx_check (fdctx d) st;
   doc st2 <- ty_check (fdret d) st1;
-  doc (body', st3) <- check_term (fdbody d) st2 (fdctx d) (fdret d);
+  doc (body', st3) <- check_term_gen eager (fdbody d) st2 (fdctx d) (fdret d);
   COk (mkfdef (fdname d) (fdctx d) (fdret d) body', st3).
+Definition def_check := def_check_gen false.
 
 (* ---------- program.rs: check_with_table ---------- *)
 Fixpoint check_type_decls (ds : list fdecl) (st : symtab) : cres unit :=
@@ -590,14 +599,15 @@ Fixpoint defs_of (ds : list fdecl) : list fdef :=
   | FDDef d :: r => d :: defs_of r
   | _ :: r => defs_of r
   end.
-Fixpoint check_defs (ds : list fdef) (st : symtab) : cres (list fdef * symtab) :=
+Fixpoint check_defs_gen (eager : bool) (ds : list fdef) (st : symtab) : cres (list fdef * symtab) :=
   match ds with
   | [] => COk ([], st)
   | d :: r =>
-      doc (d', st1) <- def_check d st;
-      doc (r', st2) <- check_defs r st1;
+      doc (d', st1) <- def_check_gen eager d st;
+      doc (r', st2) <- check_defs_gen eager r st1;
       COk (d' :: r', st2)
   end.
+Definition check_defs := check_defs_gen false.
 
 (* collection of the instances *)
 Fixpoint collect_ctors (st : symtab) (sfx : string) (xtors : list fname) : cres (list fctorsig) :=
@@ -646,13 +656,18 @@ Fixpoint insert_sorted {X} (key : X -> string) (x : X) (l : list X) : list X :=
 Definition sort_by_name {X} (key : X -> string) (l : list X) : list X :=
   fold_left (fun acc x => insert_sorted key x acc) l [].
 
-Definition check_with_table (p : fprog) (st : symtab) : cres fcprog :=
+Definition check_with_table_gen (eager : bool) (p : fprog) (st : symtab) : cres fcprog :=
   doc _ <- check_type_decls (fpdecls p) st;
-  doc (defs, st1) <- check_defs (defs_of (fpdecls p)) st;
+  doc (defs, st1) <- check_defs_gen eager (defs_of (fpdecls p)) st;
   doc (das, cos) <- collect_types st1 (st_types st1);
   COk (mkfcprog (sort_by_name fdaname das) (sort_by_name fcoaname cos) defs).
 
+Definition check_with_table := check_with_table_gen false.
+
 (* Program::check *)
-Definition check (p : fprog) : cres fcprog :=
+Definition check_gen (eager : bool) (p : fprog) : cres fcprog :=
   doc st <- build_symbol_table p;
-  check_with_table p st.
+  check_with_table_gen eager p st.
+Definition check : fprog -> cres fcprog := check_gen false.
+(* the checker after the one-line repair of the instance-order defect *)
+Definition check_repaired : fprog -> cres fcprog := check_gen true.
